@@ -222,6 +222,15 @@ fn main() {
     let scratch = PathBuf::from(args.str("scratch", &format!("/var/tmp/verif-exprsem-{}", std::process::id())));
     let _ = std::fs::create_dir_all(&scratch);
 
+    match exprsem::selftest::run() {
+        Ok(n) => rep.count_n("model_selftest_vectors_passed", n as u64),
+        Err(e) => {
+            // a model that fails its own vectors must not judge anything
+            rep.inconclusive(&format!("exprsem self-test failed, nothing judged: {e}"));
+            rep.write(&args.out());
+            std::process::exit(3);
+        }
+    }
     let t_start = std::time::Instant::now();
     let mut timings: BTreeMap<String, f64> = BTreeMap::new();
     let ex = extract::run_all();
